@@ -224,10 +224,16 @@ def run_one(base_seed, i, want_sample=False):
                    "policy:" + spec["policy"]["kind"] + ":" + spec["policy"]["gran"]: 1,
                    "threads:%d" % len(spec["threads"]): 1, "theme:" + spec["theme"]: 1,
                    "fault_failing_call_in_a_thread": sum(1 for r in rec["results"] for x in r if x and x[0] == "err"),
-                   "double_miss_runs": 1 if rec["miss_calls"] > _distinct_novel(spec) else 0},
+                   "double_miss_runs": 1 if rec["double_miss"] else 0,
+                   "double_augmenting_path_runs": 1 if rec["double_aug"] else 0},
         "oracle_queries": W.oracle.queries - q0, "oracle_hits": W.oracle.hits - h0,
         "fault_free": False, "violation": None,
     }
+    if i % 97 == 0:
+        c = spec["threads"][0][0]
+        if tuple(procs.cold_query(spec["table"], c)[:2]) != tuple(alone[0][0][0]):
+            raise procs.HarnessError("cold interpreter disagrees with alone-run for %r" % (c,))
+        summary["cold"] = 1
     if want_sample:
         summary["sample"] = {"table": spec["table"], "threads": spec["threads"], "policy": spec["policy"],
                              "steps": rec["steps"], "switches_first_20": rec["switches"][:20],
